@@ -7,7 +7,7 @@ import random
 from harness import common
 from harness.common import cN, cZ, clist, cpair, copt, cbool, cnat
 
-IMPORTS = 'From Viv Require Import Base.Assoc Base.Tree Model.Paths Model.Wire Corr.Wirec.'
+IMPORTS = 'From Viv Require Import Base.Assoc Base.Tree Model.Paths Model.Wire Model.CompState Corr.Wirec.'
 CHECK_FN = 'check_case'
 BAD_TERM = '(WGen [] (Nd []) (Ok (SV None)))'
 
